@@ -1,7 +1,9 @@
 From Coq Require Import extraction.Extraction extraction.ExtrOcamlBasic.
-From TU Require Import Base C19_Model C19_Lit.
+From TU Require Import Base C19_Model C19_Lit NFKC_Tie.
 Definition run := run_C19.
 Definition check := check_C19.
-(* relational check of the table (agree_C19) and the literal replay of the observed statistics (trace_ok) *)
-Definition agree (inp m i : val) : bool := agree_lit inp m i.
+(* relational check of the table (agree_C19) and the literal replay of the observed statistics (trace_ok);
+   nf_agree: the model's own BufRead::lines + clean + normalize of every raw corpus line equals the proc
+   oracle, and its normalize_model equals the crate's normalize on every side-channel string (4 forms x 2 modes; results in field 6 of the implementation output) *)
+Definition agree (inp m i : val) : bool := agree_lit inp m i && nf_agree inp i.
 Extraction "model.ml" run check agree.
